@@ -124,16 +124,16 @@ Section Gen.
   Variable rec_expr : expr -> C cprog.               (* compile an expression, one fuel unit lower *)
 
   (** check_for_const: run the call at compile time; a value without a nested
-      error is a constant. *)
+      error, computed without asking for the clock, is a constant. *)
   Definition check_for_const (node : cprog) : C cprog :=
     let+ bc := resolve_or_panic (into_bytecode (cp_node node)) in
-    match fst (run fuel compile_env bc true O []) with
-    | ROk v => if contains_err v then cret (mkCP (NBytecode (of_code bc)) (cp_params node))
-               else cret (mkCP (NConst v) (cp_params node))
-    | RErr _ => cret (mkCP (NBytecode (of_code bc)) (cp_params node))
-    | RPanic => fun _ => CPanic
-    | RFuel => fun _ => CFuel
-    | RUnmod => fun _ => CUnmod
+    match run fuel compile_env bc true O [] with
+    | (ROk v, lg) => if runtime_requested lg || contains_err v then cret (mkCP (NBytecode (of_code bc)) (cp_params node))
+                     else cret (mkCP (NConst v) (cp_params node))
+    | (RErr _, _) => cret (mkCP (NBytecode (of_code bc)) (cp_params node))
+    | (RPanic, _) => fun _ => CPanic
+    | (RFuel, _) => fun _ => CFuel
+    | (RUnmod, _) => fun _ => CUnmod
     end.
 
   Fixpoint c_list (es : list expr) : C (list cprog) :=
